@@ -40,7 +40,7 @@ Inductive step_shape (c : ocfg) (s : ostate) : ostep -> ostate -> Prop :=
       (upd s (remn id (q s)) (active s ++ [{| a_id := id; a_phase := PhCoro |}]) (reported s) (seen s)
            None false t (ostopped s) (oout s))
 | ShEnd t id r : onow s <= t -> owed s = None -> in_coro id s = true ->
-    (r = OCancelled -> o_mode c = MCancel /\ q s <> []) ->
+    (r = OCancelled -> In id (o_selfcancel c) \/ (o_mode c = MCancel /\ q s <> [])) ->
     step_shape c s (OEnd t id r)
       (upd s (q s)
            (map (fun a => if Nat.eqb (a_id a) id
@@ -84,7 +84,8 @@ Proof.
     apply Z.leb_le in G1. apply no_owed_none in G3.
     destruct (match r with OCancelled => _ | _ => true end) eqn:Ec; [|discriminate].
     inversion H; subst. constructor; auto.
-    intros ->. destruct (o_mode c); try discriminate. destruct (q s); [discriminate|].
+    intros ->. destruct (memn id (o_selfcancel c)) eqn:Esc; [left; now apply memn_true_in|].
+    cbn [orb] in Ec. right. destruct (o_mode c); try discriminate. destruct (q s); [discriminate|].
     split; [reflexivity|discriminate].
   - destruct ((onow s <=? t) && negb (memn id (reported s))) eqn:G; [|discriminate].
     apply andb_true_iff in G as [G1 _]. apply Z.leb_le in G1.
@@ -284,11 +285,11 @@ Qed.
 (* ---------- 'cancel' mode: the most recent event is never cancelled ---------- *)
 Definition newest (s : ostate) : option nat := hd_error (seen s).
 
-Definition NewInv (s : ostate) : Prop :=
+Definition NewInv (c : ocfg) (s : ostate) : Prop :=
   forall n, newest s = Some n ->
     (In n (q s) -> exists p, q s = p ++ [n]) /\
     (~ In n (q s) -> q s = []) /\
-    (forall r, owed s = Some (n, r) -> r <> OCancelled).
+    (forall r, owed s = Some (n, r) -> r = OCancelled -> In n (o_selfcancel c)).
 
 Lemma cnt_pos_in i l : In i l -> (1 <= cnt i l)%nat.
 Proof. intros H. unfold cnt. apply (proj1 (count_occ_In Nat.eq_dec l i)) in H. lia. Qed.
@@ -309,7 +310,7 @@ Proof.
 Qed.
 
 Lemma step_NewInv c s x s' :
-  o_mode c = MCancel -> PInv s -> NewInv s -> ostep_do c s x = Some s' -> NewInv s'.
+  o_mode c = MCancel -> PInv s -> NewInv c s -> ostep_do c s x = Some s' -> NewInv c s'.
 Proof.
   intros Hm [HC HU] I H. apply step_inv in H.
   destruct H as [t id _ Ho Hs | t k | t k a' | t id rest _ Ho _ _ Hq Ha | | t id r _ Ho Hc Hr | t id r _ Ho
@@ -335,8 +336,8 @@ Proof.
     + discriminate.
   - (* end *)
     intros n E. destruct (I n E) as (A & B & _). split; [exact A|split; [exact B|]].
-    intros r0 Eo. inversion Eo; subst. intros ->. destruct (Hr eq_refl) as [_ Hne].
-    apply Hne. apply B. apply cnt_zero_notin.
+    intros r0 Eo Ec. inversion Eo; subst. destruct (Hr eq_refl) as [Hsc|[_ Hne]]; [exact Hsc|].
+    exfalso. apply Hne. apply B. apply cnt_zero_notin.
     apply cnt_in_coro in Hc. specialize (HC n). specialize (HU n). lia.
   - (* result owed *) intros n E. destruct (I n E) as (A & B & _). repeat split; auto. discriminate.
   - (* discard *)
@@ -351,12 +352,12 @@ Qed.
 
 (* a result event 'cancelled' never carries the newest put of that moment *)
 Lemma cancelled_not_newest c s t id s' :
-  o_mode c = MCancel -> PInv s -> NewInv s ->
+  o_mode c = MCancel -> PInv s -> NewInv c s -> ~ In id (o_selfcancel c) ->
   ostep_do c s (OResult t id OCancelled) = Some s' -> newest s <> Some id.
 Proof.
-  intros Hm [HC HU] I H E. destruct (I id E) as (A & B & C). apply step_inv in H.
+  intros Hm [HC HU] I Hnsc H E. destruct (I id E) as (A & B & C). apply step_inv in H.
   inversion H; subst.
-  - eapply C; eauto.
+  - apply Hnsc. eapply C; eauto.
   - match goal with Hq : q s = _ |- _ => rewrite Hq in * end.
     destruct (A (or_introl eq_refl)) as (p & Ep).
     assert (2 <= cnt id (id :: h2 :: rest))%nat.
@@ -366,11 +367,11 @@ Proof.
     try match goal with Hq : q s = _ |- _ => rewrite Hq in HC end. lia.
 Qed.
 
-Lemma NewInv0 : NewInv ostate0.
+Lemma NewInv0 c : NewInv c ostate0.
 Proof. unfold NewInv, newest. simpl. discriminate. Qed.
 
 Lemma run_NewInv c xs : forall s s',
-  o_mode c = MCancel -> PInv s -> NewInv s -> orun c s xs = Some s' -> NewInv s'.
+  o_mode c = MCancel -> PInv s -> NewInv c s -> orun c s xs = Some s' -> NewInv c s'.
 Proof.
   induction xs as [|x r IH]; intros s s' Hm P I; simpl.
   - intros H; inversion H; subst; exact I.
@@ -385,15 +386,16 @@ Proof. rewrite rev_app_distr. reflexivity. Qed.
 (* in every accepted 'cancel' mode history the most recent put is never reported as cancelled *)
 Theorem cancel_newest_never_cancelled c xs s p last :
   o_mode c = MCancel -> orun c ostate0 xs = Some s -> puts_of xs = p ++ [last] ->
+  ~ In last (o_selfcancel c) ->
   forall t, ~ In (OResult t last OCancelled) xs.
 Proof.
-  intros Hm H Hp t Hin.
+  intros Hm H Hp Hnsc t Hin.
   apply in_split in Hin as (pre & post & ->).
   apply orun_app in H as (s0 & H0 & H). cbn [orun] in H.
   destruct (ostep_do c s0 (OResult t last OCancelled)) as [s1|] eqn:E1; [|discriminate].
   assert (P0 : PInv s0) by (eapply run_PInv; [apply PInv0|exact H0]).
-  assert (N0 : NewInv s0) by (eapply run_NewInv; [exact Hm|apply PInv0|apply NewInv0|exact H0]).
-  pose proof (cancelled_not_newest _ _ _ _ _ Hm P0 N0 E1) as Hne.
+  assert (N0 : NewInv c s0) by (eapply run_NewInv; [exact Hm|apply PInv0|apply NewInv0|exact H0]).
+  pose proof (cancelled_not_newest _ _ _ _ _ Hm P0 N0 Hnsc E1) as Hne.
   (* 'last' was put before this step (it is pending or owed), so it is in seen s0 *)
   assert (P1 : PInv s1) by (eapply step_PInv; eassumption).
   destruct (step_lists _ _ _ _ E1) as [Hs1 Hr1]. simpl in Hs1, Hr1.
@@ -420,10 +422,10 @@ Qed.
    the most recent event always runs to completion *)
 Corollary cancel_most_recent_completes c xs s p last :
   o_mode c = MCancel -> orun c ostate0 xs = Some s -> quiescent s = true ->
-  puts_of xs = p ++ [last] ->
+  puts_of xs = p ++ [last] -> ~ In last (o_selfcancel c) ->
   count_results last xs = 1%nat /\ forall t, ~ In (OResult t last OCancelled) xs.
 Proof.
-  intros Hm H Q Hp. split.
+  intros Hm H Q Hp Hnsc. split.
   - destruct (one_result_per_put _ _ _ H Q) as [A _]. apply A. rewrite Hp. apply in_or_app. right. now left.
   - eapply cancel_newest_never_cancelled; eassumption.
 Qed.
